@@ -58,11 +58,14 @@ def run_case(case):
         linear = bool(rng.integers(0, 2))
         label = f"n={n} drift={drift * 1e6:.1f}ppm offset={offset:.2f}s missing a={drop_a.tolist()} b={drop_b.tolist()} jitter={jit * 1e3:.3f}ms linear={linear}"
         res.count("trains")
+        tsa0, tsb0 = tsa.copy(), tsb.copy()
         try:
             fcn, drift_ppm, ia, ib = U.sync_timestamps(tsa, tsb, return_indices=True, linear=linear)
         except Exception as e:
             res.exception("sync:exception", e, label)
             continue
+        # the two time series are the caller's: unchanged by the call
+        res.check(np.array_equal(tsa, tsa0) and np.array_equal(tsb, tsb0), "sync:inputs-modified", f"{label}: the event series were modified by the call")
         # true pairs: positions in tsa / tsb of events present on both sides
         both = np.intersect1d(ia_true, ib_true)
         pa = np.searchsorted(ia_true, both)
